@@ -40,7 +40,7 @@ LEVEL_NOTE = (
     "the value and the resulting graph is evaluated with dask's synchronous get"
 )
 RULE = (
-    "all sequences of builder operations up to the plan's length over {add_task(kind, preds), replace_task, "
+    "all sequences of builder operations up to the plan's length over {add_task(kind, preds), replace_task, WorkflowBuilder(workflow, tasks=[t]), "
     "insert_workflow(menu workflow, preds), wb + wf, Workflow + wf, insert_context} with kind in {plain, "
     "plain+2 static inputs, context-first, context-first+2 static inputs}, preds = None | bare task | ordered list of "
     "<= 2 (<= 3 in plan add3) distinct existing tasks; state = operation sequence, transition = one operation; "
@@ -81,7 +81,7 @@ PREIMPORT = ("pharmpy.workflows", "pharmpy.workflows.dispatchers.local_dask", "d
 KNOWN_QUIRK = "insert_context-replace_task-moves-context-task-behind-later-predecessors"
 
 # ------------------------------------------------------------------------------------ plans
-_FULL = ("add", "rep", "ins", "plus", "wplus", "ctx")
+_FULL = ("add", "rep", "ins", "plus", "wplus", "ctx", "ctor")
 _MENU4 = ("one", "join", "fork", "chain")
 PLANS = {
     "quick": [
